@@ -183,7 +183,7 @@ def plan(ctx):
         sizes["foreign_names_d%d" % d] = len(foreign_names(d))
         n = 16 if ctx.tier == "quick" else 48
         units += [(d, "insert", i, n) for i in range(n)]
-        units += [(d, "ref-sibling", 0, 1), (d, "other-id", 0, 1)]
+        units += [(d, "ref-sibling", 0, 1), (d, "other-id", 0, 1), (d, "retrieved-doc", 0, 1)]
     return {
         "units": units,
         "rule": ("base schemas (all singles of G(draft) incl. their nested slots, plus sibling groups / nested "
@@ -278,6 +278,27 @@ def run_unit(unit, ctx):
                                 what["kind"] = "sibling-of-ref-own-id"
                             compare(S, S2, x, b, what, store)
         samples.append({"draft": d, "schema": REF_BASES[0](idk)[0], "inserted_next_to_ref": "every keyword of any draft"})
+    elif kind == "retrieved-doc":
+        S, doc, insts, edits = retrieved_doc_cases(d)
+        url = "http://h.invalid/dir/r.json"
+        base = [observe_served(d, S, {url: doc}, x) for x in insts]
+        for extra, pos in edits:
+            doc2 = insert(doc, pos, extra)
+            if doc2 is None:
+                continue
+            for x, b in zip(insts, base):
+                ev += 1
+                got = observe_served(d, S, {url: doc2}, x)
+                nt += 1
+                key = "same" if got == b else "DIFFERENT"
+                outcomes[key] = outcomes.get(key, 0) + 1
+                if got != b:
+                    viol.append({"signature": "C10|foreign-keyword-in-retrieved-document|%s" % "+".join(sorted(extra)),
+                                 "size": len(str(doc2)),
+                                 "case": {"draft": d, "schema": S, "edited": S, "instance": x, "store": None,
+                                          "served_before": {url: doc}, "served_after": {url: doc2}},
+                                 "detail": {"before": b, "after": got}})
+        samples.append({"draft": d, "schema": S, "retrieved_document": doc, "inserted": edits[0][0]})
     else:
         other = "$id" if d <= 4 else "id"
         for mk in ID_BASES:
@@ -297,6 +318,43 @@ def run_unit(unit, ctx):
             "counters": {"edited_schemas_rejected_by_check_schema": skipped}}
 
 
+REMOTE_ROOT = "http://h.invalid/dir/root.json"
+DECLARED = "http://h.invalid/declared.json"
+
+
+def observe_served(d, S, served, x):
+    """Validation where external documents are served by a handler (and cached by the resolver)."""
+    cls = _e1.CLS[d]
+
+    def handler(uri):
+        return copy.deepcopy(served[uri])         # KeyError for unknown documents
+    try:
+        r = RefResolver.from_schema(S, id_of=cls.ID_OF, handlers={"http": handler})
+        return sorted((ident(e) for e in cls(S, resolver=r).iter_errors(x)), key=repr)
+    except exceptions.RefResolutionError:
+        return "RefResolutionError"
+    except Exception as e:
+        return "EXC " + type(e).__name__
+
+
+def retrieved_doc_cases(d):
+    """Foreign keywords (notably the other draft's id spelling, naming a URI that is referenced later) inserted
+    into a *retrieved* document."""
+    idk = "id" if d <= 4 else "$id"
+    other = "$id" if d <= 4 else "id"
+    S = {idk: REMOTE_ROOT, "properties": {"a": {"$ref": "r.json#/t"}, "b": {"$ref": DECLARED + "#/t"},
+                                          "c": {"$ref": "sub/x.json#/t"}}}
+    doc = {"t": {"type": "integer"}, "definitions": {"u": {"type": "string"}}}
+    insts = [{"a": 1, "b": 1}, {"a": "x"}, {"a": 1, "c": 1}, {"b": 1}, {}]
+    edits = []
+    for name, vals in ((other, [DECLARED, DECLARED + "#", "sub/x.json", "http://h.invalid/dir/sub/x.json", 1, None]),
+                       ("foo", [DECLARED]), ("$anchor", ["t"]), ("$schema", [DECLARED])):
+        for v in vals:
+            edits.append(({name: v}, ()))
+            edits.append(({name: v}, ("t",)))
+    return S, doc, insts, edits
+
+
 def _get(S, pos):
     for p in pos:
         S = S[p]
@@ -305,6 +363,10 @@ def _get(S, pos):
 
 def replay(case, ctx):
     d = case["draft"]
+    if "served_before" in case:
+        a = observe_served(d, case["schema"], case["served_before"], case["instance"])
+        b = observe_served(d, case["schema"], case["served_after"], case["instance"])
+        return {"reproduced": a != b, "before": a, "after": b}
     store = case.get("store")
     a = observe(d, case["schema"], case["instance"], store)
     b = observe(d, case["edited"], case["instance"], store)
